@@ -5,7 +5,7 @@ from analysis import cfg
 from analysis.sym import sym, show_in, nosite, peel, core, walk, ret_values, args_of, guards_at, atoms_at, \
     variant_facts_at, cmp_facts_at, init_value, edge_guards, symbolizer, simplify, loop_source
 from analysis.pat import match, Call, Cap, ANY, Pred, Const, has, chain_names
-from rules.common import closure_of
+from rules.common import closure_of, V, receiver_var, local_defs, stores_to_local, state_locals
 
 WS = 'unicode::Character::is_whitespace'
 
@@ -66,11 +66,16 @@ def r2(ctx):
     ctx.require(len(lit) == 1 and len(cp) == 1, b, 'sinks', 'one literal push and one character push', 'pushes: %d literal, %d text' % (len(lit), len(cp)))
     if len(lit) != 1 or len(cp) != 1:
         return
+    outv = receiver_var(b, cp[0])
+    flags = state_locals(b, r'^bool$')
+    if outv is None or receiver_var(b, lit[0]) != outv or len(flags) != 1:
+        raise AnchorMissing('clean(): output string / whitespace flag (flags found: %d)' % len(flags))
+    flag = flags[0]
     v = sym(b, lit[0].args[1])
     ctx.require(v[0] == 'const' and v[2] == 32, b, 'separator', 'the separator is a single space', 'separator is %s' % show_in(b, v), lit[0].span)
     atoms = [(core(t), pol) for t, pol, g in atoms_at(b, lit[0].bb)]
-    ok = any(pol is True and match(t, _var('last_was_whitespace')) for t, pol in atoms) and \
-        any(pol is False and match(t, Call('String::is_empty', _var('output'))) for t, pol in atoms) and \
+    ok = any(pol is True and match(t, V(flag)) for t, pol in atoms) and \
+        any(pol is False and match(t, Call('String::is_empty', V(outv))) for t, pol in atoms) and \
         any(pol is False and match(t, Call(WS, is_ch)) for t, pol in atoms)
     ctx.require(ok, b, 'separator-guard', 'a space is emitted only under last_was_whitespace && !output.is_empty() before a non-whitespace char',
                 'a space is emitted under %s' % [('' if pol else '!') + show_in(b, t)[:40] for t, pol in atoms], lit[0].span)
@@ -90,7 +95,7 @@ def r2(ctx):
     ok = bool(ws_false) and all(cfg.must_pass(b, ws_false[0][1], l, via_blocks=[cp[0].bb]) for l in loop.latches)
     ctx.require(ok, b, 'keep-non-ws', 'every non-whitespace character is appended', 'a non-whitespace character can be dropped')
     # flag discipline
-    sets = _stores_to(b, 'last_was_whitespace')
+    sets = stores_to_local(b, flag)
     trues = [s for s, val in sets if val[0] == 'const' and val[2] == 1]
     falses = [s for s, val in sets if val[0] == 'const' and val[2] == 0]
     ok = len(trues) == 1 and trues[0].bb in r and all(s.bb not in r for s in falses) and len(falses) >= 2
@@ -99,7 +104,7 @@ def r2(ctx):
     ok = any(s.bb in loop.blocks and cfg.dominates(b, ws_false[0][1], s.bb) for s in falses)
     ctx.require(ok, b, 'flag-cleared', 'the flag is cleared on the non-whitespace path (no second space for the same run)', None)
     rv = ret_values(b)
-    ctx.require(len(rv) == 1 and match(core(rv[0][0]), _var('output')), b, 'result', 'returns the accumulated output', None)
+    ctx.require(len(rv) == 1 and match(core(rv[0][0]), V(outv)), b, 'result', 'returns the accumulated output', None)
 
 
 @rule('C11', 'R-C11-3', 'T13 PAIR (remove / full)',
@@ -147,29 +152,33 @@ def r4(ctx):
     ctx.require(len(inl) == 1 and len(out) == 1, b, 'pushes', 'one push inside the scan, one for the trailing word', 'pushes: %d in loop, %d after' % (len(inl), len(out)))
     if len(inl) != 1 or len(out) != 1:
         return
+    starts = state_locals(b, r'^std::option::Option<usize>$')
+    counters = [l for l in state_locals(b, r'^usize$') if any(match(core(v_), ('bin', 'Add', V(l), Const(1))) for _, v_ in stores_to_local(b, l))]
+    if len(starts) != 1 or len(counters) != 1:
+        raise AnchorMissing('word_boundaries(): open-word marker / character counter (found %d / %d)' % (len(starts), len(counters)))
+    start, cnt = starts[0], counters[0]
     v = core(sym(b, inl[0].args[1]))
     atoms = [(core(t), pol) for t, pol, g in atoms_at(b, inl[0].bb)]
     vfs = variant_facts_at(b, inl[0].bb)
-    ok = v[0] == 'agg' and len(v[3]) == 2 and match(v[3][1], idx) and match(v[3][0], ('var', 'start')) or \
-        (v[0] == 'agg' and len(v[3]) == 2 and match(v[3][1], idx))
-    ok = ok and any(pol is True and match(t, Call(WS, chp)) for t, pol in atoms) and any(match(core(t), _var('start')) and n == {'Some'} for t, n in vfs)
+    ok = v[0] == 'agg' and len(v[3]) == 2 and match(v[3][1], idx) and has(v[3][0], V(start))
+    ok = ok and any(pol is True and match(t, Call(WS, chp)) for t, pol in atoms) and any(match(core(t), V(start)) and n == {'Some'} for t, n in vfs)
     ctx.require(ok, b, 'close-word', 'a word (start, idx) is closed at a whitespace character when a word is open', None, inl[0].span)
-    st = _stores_to(b, 'start')
+    st = stores_to_local(b, start)
     opens = [(s, val) for s, val in st if s.bb in loop.blocks and val[0] == 'agg' and val[2].endswith('Option::Some')]
     ok = len(opens) == 1 and match(core(opens[0][1][3][0]), idx)
     if ok:
         atoms = [(core(t), pol) for t, pol, g in atoms_at(b, opens[0][0].bb)]
         vfs = variant_facts_at(b, opens[0][0].bb)
-        ok = any(pol is False and match(t, Call(WS, chp)) for t, pol in atoms) and any(match(core(t), _var('start')) and n == {'None'} for t, n in vfs)
+        ok = any(pol is False and match(t, Call(WS, chp)) for t, pol in atoms) and any(match(core(t), V(start)) and n == {'None'} for t, n in vfs)
     ctx.require(ok, b, 'open-word', 'a word is opened (start = Some(idx)) at a non-whitespace character when none is open', None)
     closes = [(s, val) for s, val in st if s.bb in loop.blocks and val[0] == 'agg' and val[2].endswith('Option::None')]
     ok = len(closes) == 1 and cfg.dominates(b, inl[0].bb, closes[0][0].bb)
     ctx.require(ok, b, 'reset-after-close', 'start is reset to None after a word was closed', None)
     v = core(sym(b, out[0].args[1]))
-    ok = v[0] == 'agg' and len(v[3]) == 2 and match(v[3][1], _var('num_elements')) and any(match(core(t), _var('start')) and n == {'Some'} for t, n in variant_facts_at(b, out[0].bb))
+    ok = v[0] == 'agg' and len(v[3]) == 2 and match(v[3][1], V(cnt)) and has(v[3][0], V(start)) and any(match(core(t), V(start)) and n == {'Some'} for t, n in variant_facts_at(b, out[0].bb))
     ctx.require(ok, b, 'trailing-word', 'the trailing word is (start, number of characters)', 'trailing word is %s' % show_in(b, v), out[0].span)
-    cnt = _stores_to(b, 'num_elements')
-    inc = [(s, val) for s, val in cnt if s.bb in loop.blocks]
-    ok = len(inc) == 1 and match(core(inc[0][1]), ('bin', 'Add', _var('num_elements'), Const(1))) and \
+    cnts = stores_to_local(b, cnt)
+    inc = [(s, val) for s, val in cnts if s.bb in loop.blocks]
+    ok = len(inc) == 1 and match(core(inc[0][1]), ('bin', 'Add', V(cnt), Const(1))) and \
         all(cfg.must_pass(b, loop.header, l, via_blocks=[inc[0][0].bb], from_succ=True) for l in loop.latches)
     ctx.require(ok, b, 'count', 'num_elements counts every character', None)
